@@ -327,3 +327,59 @@ pub(crate) fn vec_with_capacity_64<T>(n: usize) -> Vec<T> {
 pub(crate) fn vec_with_capacity_ignored<T>(_n: usize) -> Vec<T> {
     Vec::new()
 }
+
+// ---------------------------------------------------------------------------------------------
+// symbolic vs. native-replay mode
+// ---------------------------------------------------------------------------------------------
+/// `false` in an ordinary (native, concrete-playback) run; every harness that reads ghost state written by stubs replaces it
+/// by `yes` through #[kani::stub], so it is the constant `true` under the solver. Ghost-based oracles are used only when it is
+/// true; the native replay of a counterexample uses an exact reference computed from the concrete operands instead.
+pub(crate) fn symbolic() -> bool {
+    false
+}
+pub(crate) fn yes() -> bool {
+    true
+}
+/// schoolbook reference product over a window (ONLY for native replay: under the solver this would be a 64x64 multiplier per digit pair)
+pub(crate) fn ref_mul<const W: usize>(a: &[u64], b: &[u64]) -> [u64; W] {
+    let mut out = [0u64; W];
+    let mut i = 0;
+    while i < a.len() {
+        let mut carry: u128 = 0;
+        let mut j = 0;
+        while i + j < W {
+            let bj = if j < b.len() { b[j] as u128 } else { 0 };
+            let t = out[i + j] as u128 + (a[i] as u128) * bj + carry;
+            out[i + j] = t as u64;
+            carry = t >> 64;
+            j += 1;
+        }
+        i += 1;
+    }
+    out
+}
+
+/// corner digit values for the native witness search that confirms an ABSTRACT counterexample (one found with products or
+/// quotients replaced by uninterpreted values): the concrete operands of such a counterexample need not trigger the defect
+/// with real arithmetic, so the native replay additionally sweeps the same operation over these digits.
+pub(crate) const CORNERS: [u64; 12] = [0, 1, 2, 3, u64::MAX, u64::MAX - 1, 1 << 63, (1 << 63) - 1, 0x5555_5555_5555_5556, 0xaaaa_aaaa_aaaa_aaab, 1 << 32, 0xffff_ffff];
+/// k-th combination of corner digits for an N-digit operand (k < 12^N)
+pub(crate) fn corner_operand<const N: usize>(mut k: usize) -> [u64; N] {
+    let mut o = [0u64; N];
+    let mut i = 0;
+    while i < N {
+        o[i] = CORNERS[k % 12];
+        k /= 12;
+        i += 1;
+    }
+    o
+}
+pub(crate) fn pow12(n: usize) -> usize {
+    let mut r = 1;
+    let mut i = 0;
+    while i < n {
+        r *= 12;
+        i += 1;
+    }
+    r
+}
